@@ -118,7 +118,8 @@ CHECKS["C12"] = dict(
          "exactly that device's sizes and the RAM extent; C12_pass1_capacity; C12_device_once (unknown / second device is an error); "
          "C12_parts: every shipped includes/*def.inc whose device is in the table declares the figures the table enforces (both "
          "regenerated from /repo on every run, compared by vm_compute)." + PROG,
-    note=BASE + " Search: every device row x 3 memories x {cap-1, cap, cap+1} reached by .org, data, code, reservation.",
+    note=BASE + " Search: every device row x 3 memories x {cap-1, cap, cap+1} reached by .org, data, code, reservation; the report the "
+         "command-line tool prints with -v (usage and capacity of the three memories) under every device row.",
     tech="Coq proof (characterisation of the capacity check) + regenerated device/part tables + exhaustive boundary runs", ref="3 C12")
 CHECKS["C13"] = dict(
     text="Theorem C13_gate (Props/C13.v): for EVERY set of feature flags (all 2^16, not only the 54 rows), every operation and operand "
@@ -159,7 +160,9 @@ CHECKS["C16"] = dict(
          "native stack depth, time, allocator - exercised by ./check C16: every case in an isolated worker (3 GB limit, watchdog), "
          "bounded-exhaustive single-line programs (153 heads x 0-2 operands from a 43-entry hostile dictionary), structural extremes, "
          "mutated programs; three deep-nesting inputs are open known findings." + PROG,
-    note=BASE + " The remaining Panic sites of the model are the 32-bit additions of pass 2, unreachable after pass 1's check (not proved).",
+    note=BASE + " The remaining Panic sites of the model are the 32-bit additions of pass 2, unreachable after pass 1's check (not proved). "
+         "'Promptly' is operationalised as 3 s (two tries) in the debug worker for 64 KiB - the bound of the quantifier - of one kind of "
+         "line each; everything else runs under a 10 s watchdog.",
     tech="Coq proof of panic-freedom for evaluator/encoder/directives/pass 1 + isolated-process bounded-exhaustive and mutation runs", ref="3 C16")
 
 CHECKS["C08"] = dict(
@@ -180,7 +183,9 @@ CHECKS["C18"] = dict(
          "cannot be created gives a non-zero exit. OS behaviour enters through the oracle can_create. The binary built from the tree is "
          "run on 10 sources x all 8 option combinations x {writable, missing directory, path is a directory} (200 runs): exit status, "
          "set of created/altered files, and every output file byte-identical to Hex.write of the image the library builds.",
-    note=BASE + " Signals, disk-full and races are not modelled; the Python oracle of ./check C18 mirrors Cli.cli_main.",
+    note=BASE + " Signals, disk-full and races are not modelled; the Python oracle of ./check C18 mirrors Cli.cli_main. Sources are named by "
+         "absolute path, relative path and through symbolic links; general programs are run through the tool with -v and compared with "
+         "the library's result (exit status, files, printed messages, report).",
     tech="Coq proof over a CLI model with an OS oracle (reusing the C07 round-trip theorem) + exhaustive option-matrix runs of the real binary",
     ref="3 C18")
 CHECKS["C02"] = dict(
@@ -193,7 +198,8 @@ CHECKS["C02"] = dict(
          "emits what follows it; data labels = segment start + reservations before); C02_hypotheses_met (pass 0 leaves no macro call in "
          "code; every table device is below the 2^31 bound). The segment list is what the parser produced: the parser-level findings "
          "`.org 0` and non-literal `.byte` are open known findings reported by the check." + PROG,
-    note=BASE + " Search: 4000 (quick) / 80000 (thorough) generated layouts against an independent reference layout in vlib/c02.py.",
+    note=BASE + " Search: 4000 (quick) / 80000 (thorough) generated layouts against an independent reference layout in vlib/c02.py; nine "
+         "programs with more than 2^16 instructions / labels / operands / characters / segments / symbols (implementation only).",
     tech="Coq proof (lock-step fold invariants over pass 1 / pass 2) + regenerated op/device tables + reference-layout oracle search", ref="3 C02")
 CHECKS["C11"] = dict(
     text="Theorems (Props/C11.v) over Model/Fs.v (std::path components, PathBuf::push/parent, BTreeSet order; a file system of directories and "
